@@ -91,7 +91,10 @@ def check_against_model(ctx, p, got, s, T, nfft, df, total, where):
 def make_spectrum(real, nfft, vec, sampling=2.0):
     x = np.arange(1, nfft + 1, dtype=float) + (0 if real else 1j)
     p = Spectrum(x, NFFT=nfft, sampling=sampling)
-    p.psd = np.array(vec, dtype=float)
+    if len(vec) and all(type(v) is int for v in vec):
+        p.psd = list(vec)          # whole numbers stored the way the package's own examples do: a list of Python ints
+    else:
+        p.psd = np.array(vec, dtype=float)
     p._c06_manual = True
     return p
 
@@ -103,6 +106,8 @@ def vectors(real, nfft):
     # a stored vector with negative entries (e.g. a correlogram with a rectangular lag window): the conversions are linear
     # maps, which the basis vectors pin only if the implementation *is* linear -- a magnitude taken on the way is not
     vs.append(("signed", [float((i + 1.5) ** 2) * (-1.0 if i % 3 == 1 else 1.0) for i in range(L)]))
+    # whole numbers given as Python ints (an integer array inside the object): halves of odd values are not whole
+    vs.append(("ints", [int(2 * i * i + 3 * i + 5) for i in range(L)]))
     return vs
 
 
@@ -118,6 +123,16 @@ def run_sequence(ctx, real, nfft, vec, seq, sampling=2.0, p=None):
     total = float(np.sum(base))
     changed = 0
     for path, s in seq:
+        if path == "scale":
+            # the caller rescales the stored vector in place, in whatever layout it currently has (a change of units):
+            # every later conversion must start from the values the object now holds
+            cur = p.psd
+            cur *= (s if cur.dtype.kind == "f" else int(s))
+            T = T * s
+            base = base * s
+            total = total * s
+            ctx.check(np.array_equal(np.asarray(p.psd, dtype=float), np.asarray(cur, dtype=float)), "in-place edit of p.psd is not visible through p.psd")
+            continue
         if path == "sampling":
             if getattr(p, "_c06_manual", False):
                 continue      # a hand-set PSD on the bare base class cannot be recomputed: no estimator behind it
@@ -276,6 +291,31 @@ def c06_seq(ctx, case):
 
 
 # ---- tools helpers --------------------------------------------------------
+def enum_edit(tier):
+    for real in (True, False):
+        for nfft in (4, 5, 8, 9, 12, 13):
+            for vname in ("dense", "signed", "ints"):
+                for s1 in SIDES:
+                    for s2 in SIDES:
+                        for s3 in (None,) + tuple(SIDES):
+                            for last in ("attr", "get"):
+                                yield {"real": real, "nfft": nfft, "vec": vname, "s1": s1, "s2": s2, "s3": s3, "last": last}
+
+
+@sub("C06.edit", enum=enum_edit, exhaustive=True, shards_quick=4, shards_thorough=4,
+     doc="the stored vector rescaled in place (x3, whatever layout the object is in) between two conversions: every later "
+         "conversion carries the values the object now holds (s1, edit, s2[, s3]; last step through sides or get_converted_psd)")
+def c06_edit(ctx, case):
+    real, nfft = case["real"], case["nfft"]
+    vec = dict(vectors(real, nfft))[case["vec"]]
+    ops = [["attr", case["s1"]], ["scale", 3.0]]
+    rest = [case["s2"]] + ([case["s3"]] if case["s3"] else [])
+    ops += [["attr", s] for s in rest[:-1]] + [[case["last"], rest[-1]]]
+    changed = run_sequence(ctx, real, nfft, vec, ops)
+    ctx.cls("real" if real else "complex", "even" if nfft % 2 == 0 else "odd", case["vec"], "edit in " + case["s1"])
+    ctx.nontrivial(changed >= 1)
+
+
 def enum_tools(tier):
     for n in range(1, 34):
         for helper in ("twosided_2_centerdc", "centerdc_2_twosided", "roundtrip_c", "twosided_2_onesided",
